@@ -258,6 +258,18 @@ class ProgGen:
             self.w("    return held")
             self.w("R.reg(make_held)")
             self.w("")
+            # ... and a generator that the harness starts in one thread and runs to exhaustion in another
+            self.w("def held_gen(a):")
+            self.w("    R.enter(['a'])")
+            self.w("    _v = V[0]")
+            self.w("    R.act('yield', _v)")
+            self.w("    yield _v")
+            self.w("    _v = V[1]")
+            self.w("    R.act('yield', _v)")
+            self.w("    yield _v")
+            self.w("    R.act('return', None)")
+            self.w("R.reg(held_gen)")
+            self.w("")
         # a function that is handed the same container several times, changed in place in between (see main)
         if not self.safe_generators and r.random() < 0.4:
             self.has_buf = True
